@@ -34,7 +34,7 @@ REPO = os.environ.get("VERIF_REPO", "/repo")
 REQUESTS = [
     ("increase_to_alignment", "multiboot2-common/src/lib.rs", "", "increase_to_alignment", ["size"]),
     ("bytes_ref_try_from", "multiboot2-common/src/bytes_ref.rs", r"TryFrom<.*>\s+for\s+BytesRef", "try_from",
-     ["bytes.len()", "size_of::<H>()", "bytes.as_ptr().align_offset(ALIGNMENT)"]),
+     ["bytes.len()", "size_of::<H>()", "bytes.as_ptr().align_offset(ALIGNMENT)", "bytes"]),
     ("ref_from_bytes", "multiboot2-common/src/lib.rs", r"DynSizedStructure<H>", "ref_from_bytes",
      ["hdr.payload_len()", "bytes.len()", "size_of::<H>()", "ptr_meta::from_raw_parts(ptr.cast(),dst_size)"]),
     ("header_total_size_default", "multiboot2-common/src/lib.rs", r"trait\s+Header", "total_size",
@@ -53,6 +53,8 @@ REQUESTS = [
      ["self.header_magic", "self.arch", "self.length", "self.checksum"]),
     ("mbi_load", "multiboot2/src/boot_information.rs", r"impl<'a>\s+BootInformation<'a>", "load",
      ["NonNull::new(ptr.cast_mut())", "DynSizedStructure::ref_from_ptr(ptr)", "this.has_valid_end_tag()"]),
+    ("has_valid_end_tag", "multiboot2/src/boot_information.rs", r"impl<'a>\s+BootInformation<'a>", "has_valid_end_tag",
+     ["end_tag.typ", "end_tag.size"]),
     ("hdr_load", "multiboot2-header/src/header.rs", r"impl<'a>\s+Multiboot2Header<'a>", "load",
      ["NonNull::new(ptr.cast_mut())", "DynSizedStructure::ref_from_ptr(ptr)", "header.header_magic", "header.verify_checksum()"]),
     # dst_len of every dynamically sized tag
@@ -69,6 +71,7 @@ REQUESTS = [
     # identifier conversions
     ("tag_type_from_u32", "multiboot2/src/tag_type.rs", r"From<u32>\s+for\s+TagType\b", "from", ["value"]),
     ("u32_from_tag_type", "multiboot2/src/tag_type.rs", r"From<TagType>\s+for\s+u32", "from", ["value"]),
+    ("tag_type_val", "multiboot2/src/tag_type.rs", r"impl\s+TagType\b", "val", ["u32::from(*self)"]),
     ("mem_type_from_id", "multiboot2/src/memory_map.rs", r"From<MemoryAreaTypeId>\s+for\s+MemoryAreaType", "from", ["value.0"]),
     ("id_from_mem_type", "multiboot2/src/memory_map.rs", r"From<MemoryAreaType>\s+for\s+MemoryAreaTypeId", "from", ["value"]),
     ("elf_section_type", "multiboot2/src/elf_sections.rs", r"impl\s+ElfSection\b", "section_type", ["self.get().typ()"]),
@@ -79,15 +82,45 @@ REQUESTS = [
     ("efi_iter_next", "multiboot2/src/memory_map.rs", r"Iterator\s+for\s+EFIMemoryAreaIter", "next",
      ["self.i", "self.entries", r"re:self\.mmap_tag\.memory_map\.as_ptr\(\)\.add\(.*\)\.cast::<EFIMemoryDesc>\(\)\.as_ref\(\)"]),
     ("efi_iter_new", "multiboot2/src/memory_map.rs", r"impl<'a>\s+EFIMemoryAreaIter<'a>", "new",
-     ["mmap_tag.desc_size", "mmap_tag.memory_map.len()", "size_of::<EFIMemoryDesc>()", "mem::align_of::<EFIMemoryDesc>()"]),
+     ["mmap_tag.desc_size", "mmap_tag.memory_map.len()", "size_of::<EFIMemoryDesc>()", "mem::align_of::<EFIMemoryDesc>()", "mmap_tag"]),
     ("efi_memory_areas", "multiboot2/src/memory_map.rs", r"impl\s+EFIMemoryMapTag", "memory_areas",
      ["self.desc_version", "EFIMemoryDesc::VERSION", "self.memory_map.as_ptr().align_offset(mem::align_of::<EFIMemoryDesc>())",
       "EFIMemoryAreaIter::new(self)"]),
     ("mmap_memory_areas", "multiboot2/src/memory_map.rs", r"impl\s+MemoryMapTag", "memory_areas", ["self.entry_size", "self.areas"]),
     ("elf_sections_open", "multiboot2/src/elf_sections.rs", r"impl\s+ElfSectionsTag", "sections",
-     ["self.sections.len()", "self.entry_size", "self.number_of_sections", "self.shndx"]),
+     ["self.sections.len()", "self.entry_size", "self.number_of_sections", "self.shndx", "self.sections.as_ptr()",
+      "self.sections.as_ptr().offset(string_section_offset)"]),
     ("rsdp2_checksum", "multiboot2/src/rsdp.rs", r"impl\s+RsdpV2Tag", "checksum_is_valid",
      ["self.length", r"re:bytes\[8\.\.\]\.iter\(\)\.fold\(.*\)"]),
+    # constructors of the fixed-size tags: header constants and the field each argument is stored in (struct order)
+    ("ctor_apm", "multiboot2/src/apm.rs", r"impl\s+ApmTag\b", "new",
+     ["version", "cseg", "offset", "cset_16", "dset", "flags", "cseg_len", "cseg_16_len", "dseg_len"]),
+    ("ctor_meminfo", "multiboot2/src/memory_map.rs", r"impl\s+BasicMemoryInfoTag\b", "new", ["memory_lower", "memory_upper"]),
+    ("ctor_bootdev", "multiboot2/src/bootdev.rs", r"impl\s+BootdevTag\b", "new", ["biosdev", "slice", "part"]),
+    ("ctor_efi32", "multiboot2/src/efi.rs", r"impl\s+EFISdt32Tag\b", "new", ["pointer"]),
+    ("ctor_efi64", "multiboot2/src/efi.rs", r"impl\s+EFISdt64Tag\b", "new", ["pointer"]),
+    ("ctor_ih32", "multiboot2/src/efi.rs", r"impl\s+EFIImageHandle32Tag\b", "new", ["pointer"]),
+    ("ctor_ih64", "multiboot2/src/efi.rs", r"impl\s+EFIImageHandle64Tag\b", "new", ["pointer"]),
+    ("ctor_efibs", "multiboot2/src/efi.rs", r"Default\s+for\s+EFIBootServicesNotExitedTag", "default", []),
+    ("ctor_loadbase", "multiboot2/src/image_load_addr.rs", r"impl\s+ImageLoadPhysAddrTag\b", "new", ["load_base_addr"]),
+    ("ctor_end", "multiboot2/src/end.rs", r"Default\s+for\s+EndTag", "default", []),
+    ("ctor_rsdp1", "multiboot2/src/rsdp.rs", r"impl\s+RsdpV1Tag\b", "new", ["Self::SIGNATURE", "checksum", "oem_id", "revision", "rsdt_address"]),
+    ("ctor_rsdp2", "multiboot2/src/rsdp.rs", r"impl\s+RsdpV2Tag\b", "new",
+     ["Self::SIGNATURE", "checksum", "oem_id", "revision", "rsdt_address", "length", "xsdt_address", "ext_checksum", "[0;3]"]),
+    ("ctor_vbe", "multiboot2/src/vbe_info.rs", r"impl\s+VBEInfoTag\b", "new",
+     ["mode", "interface_segment", "interface_offset", "interface_length", "control_info", "mode_info"]),
+    ("ctor_h_address", "multiboot2-header/src/address.rs", r"impl\s+AddressHeaderTag\b", "new",
+     ["flags", "header_addr", "load_addr", "load_end_addr", "bss_end_addr"]),
+    ("ctor_h_console", "multiboot2-header/src/console.rs", r"impl\s+ConsoleHeaderTag\b", "new", ["flags", "console_flags"]),
+    ("ctor_h_end", "multiboot2-header/src/end.rs", r"impl\s+EndHeaderTag\b", "new", []),
+    ("ctor_h_entry", "multiboot2-header/src/entry_address.rs", r"impl\s+EntryAddressHeaderTag\b", "new", ["flags", "entry_addr"]),
+    ("ctor_h_efi32", "multiboot2-header/src/entry_efi_32.rs", r"impl\s+EntryEfi32HeaderTag\b", "new", ["flags", "entry_addr"]),
+    ("ctor_h_efi64", "multiboot2-header/src/entry_efi_64.rs", r"impl\s+EntryEfi64HeaderTag\b", "new", ["flags", "entry_addr"]),
+    ("ctor_h_fb", "multiboot2-header/src/framebuffer.rs", r"impl\s+FramebufferHeaderTag\b", "new", ["flags", "width", "height", "depth"]),
+    ("ctor_h_modalign", "multiboot2-header/src/module_align.rs", r"impl\s+ModuleAlignHeaderTag\b", "new", ["flags"]),
+    ("ctor_h_efibs", "multiboot2-header/src/uefi_bs.rs", r"impl\s+EfiBootServiceHeaderTag\b", "new", ["flags"]),
+    ("ctor_h_reloc", "multiboot2-header/src/relocatable.rs", r"impl\s+RelocatableHeaderTag\b", "new",
+     ["flags", "min_addr", "max_addr", "align", "preference"]),
     ("efi_iter_len", "multiboot2/src/memory_map.rs", r"ExactSizeIterator\s+for\s+EFIMemoryAreaIter", "len", ["self.i", "self.entries"]),
 ]
 
@@ -435,6 +468,9 @@ class Parser:
                 return ("tuple", items, self.span(a))
             self.eat(")")
             return ("paren", e)
+        if self.at("["):
+            self.skip_balanced("[", "]")
+            return ("opaque", self.span(a))
         if self.at("{"):
             return self.block()
         if self.at("unsafe"):
@@ -608,6 +644,7 @@ class Lowerer:
         self.depth = depth
         self.mutated = []
         self.computed_keys = {}
+        self.aliases = []
 
     # scope: name -> ("v", idx) | ("o", text)
     def fresh(self):
@@ -686,10 +723,17 @@ class Lowerer:
         if k == "structlit":
             # the computed fields (source order) as right-nested pairs; opaque fields carry no decision
             vals = []
-            for (_fn, fe) in e[2]:
+            fields = list(e[2])
+            st = self.ctx.cr.structs.get(self.self_ty or "")
+            if st and not st.get("tuple"):
+                order = [f for (f, _t) in st["fields"]]
+                if all(fn in order for (fn, _fe) in fields):
+                    fields.sort(key=lambda x: order.index(x[0]))
+            for (_fn, fe) in fields:
                 r = self.lower(fe, scope, pre)
-                if r[0] == "i" and r[1] != '(.c0 "PhantomData")':
-                    vals.append(r[1])
+                v = self.use(r)
+                if v != '(.c0 "PhantomData")' and not (r[0] == "o" and r[1] == "PhantomData"):
+                    vals.append(v)
             if not vals:
                 return ("i", ".unit")
             ir = vals[-1]
@@ -856,6 +900,13 @@ class Lowerer:
                 if n is not None:
                     return ("i", "(.tlit %d .usize)" % n)
                 return ("o", "size_of::<%s>()" % generics[-1].replace(" ", ""))
+            if last == "new" and len(segs) >= 2 and segs[-2] in ("TagHeader", "HeaderTagHeader") and 2 <= len(args) <= 3:
+                vs = [self.use(self.lower(a, scope, pre)) for a in args]
+                vs[-1] = "(.cast %s .u32)" % vs[-1]       # the size parameter of both constructors is a `u32`
+                ir = vs[-1]
+                for v in reversed(vs[:-1]):
+                    ir = "(.pair %s %s)" % (v, ir)
+                return ("i", ir)
             # inlining of requested functions
             key = None
             if len(segs) == 1 and ("", last) in self.registry:
@@ -896,6 +947,10 @@ class Lowerer:
             r = self.lower(recv, scope, pre)
             if r[0] == "i":
                 return r
+        if name == "try_into" and not args:
+            r = self.lower(recv, scope, pre)
+            if r[0] == "i":
+                return ("i", '(.c1 "Ok" %s)' % r[1])
         # anything else is an uninterpreted input named by its source text
         return self.opaque(text, scope)
 
@@ -1035,6 +1090,7 @@ class Lowerer:
             sc = dict(scope)
             if r[0] == "o" and not pre:
                 sc[name] = ("o", r[1])
+                self.aliases.append((name, self.subst_text(r[1], scope)))
                 return cont(sc)
             v = self.use(r)
             if ty and ty.replace(" ", "") in INT_TYS and re.fullmatch(r"\(\.lit \d+\)", v):
@@ -1149,6 +1205,7 @@ class Context:
     def __init__(self):
         self.cr = gen_source.Crate()
         self.crate = ""
+        self.tag_numbers = {}
         self.all_text = {}
         for crate in ("multiboot2-common", "multiboot2", "multiboot2-header"):
             d = os.path.join(REPO, crate, "src")
@@ -1159,6 +1216,7 @@ class Context:
                         self.all_text[p] = self.cr.load(p)
                     except Exception:
                         pass
+        self.tag_numbers = gen_source.tag_type_numbers(self.cr)
 
     def size_align(self, ty):
         ty = ty.replace(" ", "")
@@ -1171,6 +1229,16 @@ class Context:
 
     def const(self, owner, name):
         """value and type of `const NAME: ty = expr;` (free, or associated to `owner`); the requesting crate first"""
+        if name == "ID" and owner:
+            for txt in self.all_text.values():
+                for body in self.cr.impl_bodies(txt, owner, "Tag"):
+                    m = re.search(r"const\s+ID\s*:\s*[\w:]+\s*=\s*([\w:]+)\s*;", body)
+                    if m:
+                        key = "::".join(m.group(1).split("::")[-2:])
+                        n = self.tag_numbers.get(key)
+                        if n is not None and key.startswith("TagType::"):
+                            return (n, None)
+            return None
         if not (name.isupper() or "_" in name) or not name[0].isupper():
             return None
         if owner is None:
@@ -1256,7 +1324,7 @@ def translate(ctx, req, registry):
     assigned_self_fields(blk, lw.mutated)
     scope = {}
     ir = lw.lower_stmts(blk[1], blk[2], scope, lambda v, sc: lw.ret_wrap(v, sc))
-    return ir, lw.free, lw.mutated
+    return ir, lw.free, lw.mutated, lw.aliases
 
 
 def make_inliner(ctx, req, registry):
@@ -1303,10 +1371,11 @@ def main(out_path, report_path=None):
     for req in REQUESTS:
         name = req[0]
         try:
-            ir, free, mutated = translate(ctx, req, registry)
+            ir, free, mutated, aliases = translate(ctx, req, registry)
             lines.append("def %s : Option E := some\n  %s" % (name, ir))
             lines.append("def %s_vars : List String := [%s]" % (name, ", ".join(json.dumps(f) for f in free)))
             lines.append("def %s_state : List String := [%s]" % (name, ", ".join(json.dumps(f) for f in mutated)))
+            lines.append("def %s_aliases : List (String × String) := [%s]" % (name, ", ".join("(%s, %s)" % (json.dumps(a), json.dumps(b)) for a, b in aliases)))
             report["translated"].append(name)
             if len(free) > len(req[4]):
                 report["extra_inputs"][name] = free[len(req[4]):]
@@ -1314,6 +1383,7 @@ def main(out_path, report_path=None):
             lines.append("def %s : Option E := none" % name)
             lines.append("def %s_vars : List String := []" % name)
             lines.append("def %s_state : List String := []" % name)
+            lines.append("def %s_aliases : List (String × String) := []" % name)
             report["not_translated"][name] = "%s: %s" % (type(ex).__name__, ex)
         lines.append("")
     lines.append("end Mb2.Gen.Fns")
